@@ -16,10 +16,10 @@ func verifHole(max int, wide int) string {
 	return s
 }
 
-const verifKinds = 15
+const verifKinds = 16
 
 var verifKindTag = []string{":string", ":regex", ":bare-value", ":array", ":nested-array", ":block-type", ":block-tag", ":inline-description",
-	":header-comment", ":line-comment", ":block-comment", ":description", ":assign-comment", ":free", ":block-qualifier"}
+	":header-comment", ":line-comment", ":block-comment", ":description", ":assign-comment", ":free", ":block-qualifier", ":header-description-then-description"}
 
 // verifStatement renders statement template `kind` around the hole. The
 // second result says whether the statement opens a block that the template
@@ -52,6 +52,9 @@ func verifStatement(kind int, hole string) string {
 		return "| " + hole + "\n| w2\n"
 	case 12:
 		return "a = 1 //" + hole + "\n"
+	case 15:
+		// an inline header description directly followed by description lines
+		return "blk t | " + hole + "\n| w2\n| w3\n"
 	case 14:
 		// the hole in qualifier position (a qualifier is read like a tag: it may carry a ! or ? mark)
 		return "blk t:" + hole + " {\n}\n"
